@@ -63,7 +63,7 @@ Write a demonstration that FAILS with your change and PASSES without it:
 * for `gxz` properties a Go test in package `main` of `cmd/gxz` that builds/executes the binary with
   `go build`/`os/exec` in a temp dir is fine (same naming rule), or test the functions directly.
 Verify yourself: run the demo without the change (must pass), with the change (must fail), and the whole
-suite with the change (must pass).  Use `git stash` / `git diff` in the worktree as you like, but
+suite with the change (must pass).  Do NOT use `git stash` (the stash is shared by all worktrees of this repository and other people work in sibling worktrees): to test without your change use `git diff > /tmp/sa/out/<id>/patch.diff; git checkout -- .` and re-apply with `git apply`;
 leave the worktree with your change applied and the demo file NOT part of the patch.
 
 ## Hand in (files in `{out}`)
